@@ -108,6 +108,12 @@ impl BuildOptimiser {
     }
 
     pub fn build(&self) -> MCOptimiser {
+        // The temperature and step size are updated every inner_steps, which is at most the total
+        // number of steps. Without a number of inner steps the whole run is a single loop.
+        let inner_steps = match u64::min(self.inner_steps, self.steps) {
+            0 => u64::max(self.steps, 1),
+            x => x,
+        };
         let kt_ratio = match (self.kt_ratio, self.kt_finish) {
             (Some(ratio), _) => 1. - ratio,
             (None, Some(finish)) => f64::powf(finish / self.kt_start, 1. / self.steps as f64),
@@ -124,7 +130,7 @@ impl BuildOptimiser {
             kt_ratio,
             max_step_size: self.max_step_size,
             steps: self.steps,
-            inner_steps: u64::min(self.inner_steps, self.steps),
+            inner_steps,
             seed,
             convergence: self.convergence,
         }
